@@ -44,6 +44,9 @@ structure ClassInfo where
   classAttrs : List String
   childDict : String
   childList : String
+  /-- class picked by `_from_base` when the data is a synced dict / list of ANOTHER family -/
+  childDictForeign : String
+  childListForeign : String
   api : List ApiEntry
 deriving Repr
 
